@@ -498,10 +498,16 @@ def sampled_stream(ck, orders):
     ck.stream("sampled", "cirq with n_shots in {1, 17, 200}: support inside the exact support, frequencies are counts/n_shots summing to one, "
               "deterministic (classical reversible) circuits give one key; sympy with n_shots: support and normalisation only "
               "(the backend ignores n_shots); non-trivial = exact distribution has at least two outcomes")
-    for i in range(50 if ck.tier == "quick" else 600):
+    n_rand = 50 if ck.tier == "quick" else 600
+    for i in range(n_rand + 2):
         backend = "cirq" if i % 10 else "sympy"
         case = gen_case(rng, backend, ck.tier)
         det = rng.random() < 0.3
+        if i >= n_rand:
+            # fixed cases, one per backend: a circuit WITHOUT gates and a supplied initial state (identity path of Backend.simulate)
+            backend = ["cirq", "sympy"][i - n_rand]
+            case = {"backend": backend, "n": 2, "n_arg": 2, "prefix": dense_prefix([0, 1]), "gates": [], "isv": True}
+            det = False
         if det:
             names = ["X", "CNOT", "CX", "SWAP"] + (["CSWAP"] if backend == "cirq" else [])
             k = case["n"]
@@ -519,7 +525,11 @@ def sampled_stream(ck, orders):
         try:
             f, _ = run_impl(case, orders[backend], n_shots=n_shots, want_sv=False)
         except Exception as e:      # noqa
-            ck.violation("C01/%s/sampled/raises/%s" % (backend, type(e).__name__), "simulate(n_shots=%d) raised %s: %s" % (n_shots, type(e).__name__, str(e)[:150]), replay)
+            ck.case("sampled", json.dumps([case, n_shots], sort_keys=True), nontrivial=True, sample={"n_shots": n_shots, "gates": case["gates"][:4], "raised": type(e).__name__},
+                    tags=[backend, "raised"] + ([] if case["gates"] else ["gate-less"]))
+            ck.violation("C01/%s/sampled/raises/%s%s" % (backend, type(e).__name__, "" if case["gates"] else "/gate-less-circuit-with-initial-statevector"),
+                         "simulate(n_shots=%d) raised %s: %s on %s" % (n_shots, type(e).__name__, str(e)[:150], json.dumps(case["gates"])[:200] if case["gates"] else
+                                                                         "a circuit without gates and an initial_statevector"), replay)
             continue
         if backend == "sympy" and orders["sympy"] == "lsq_first" and case["isv"]:
             # known order defect: the supplied initial state is read bit-reversed; compare with that state instead
@@ -529,7 +539,8 @@ def sampled_stream(ck, orders):
             probs_asis = None
         bad = sampled_issues(f, probs, n, n_shots if backend == "cirq" else None)
         ck.case("sampled", json.dumps([case, n_shots], sort_keys=True), nontrivial=int(np.sum(probs > 1e-9)) >= 2,
-                sample={"n_shots": n_shots, "gates": case["gates"][:4], "frequencies": f}, tags=[backend, "n_shots=%d" % n_shots, "deterministic" if det else "random"])
+                sample={"n_shots": n_shots, "gates": case["gates"][:4], "frequencies": f},
+                tags=[backend, "n_shots=%d" % n_shots, "deterministic" if det else "random"] + ([] if case["gates"] else ["gate-less"]))
         if bad:
             if backend == "sympy":
                 if probs_asis is not None and not sampled_issues(f, probs_asis, n, None):
@@ -623,6 +634,118 @@ def malformed_stream(ck, tables, orders):
                     else:
                         ck.violation("C01/%s/controlled-name-without-control/%s" % (backend, nm), "%s without controls is accepted and is neither the unconditional gate nor an error" % nm,
                                      {"kind": "stale", "backend": backend, "name": nm})
+
+
+def _judge(ck, stream, case, order, tags, budget=30):
+    """Implementation-only oracle: run the real backend on `case`, compare with np_sim; an exception raised inside tangelo is a
+    violation carrying the case."""
+    backend = case["backend"]
+    psi0, ref = ref_states(case)
+    replay = {"kind": "exact", "case": case, "order": order}
+    try:
+        f, sv = run_impl(case, order)
+    except Exception as e:          # noqa
+        ck.case(stream, json.dumps(case, sort_keys=True), nontrivial=True, sample={"gates": case["gates"][:4], "raised": type(e).__name__}, tags=tags + ["raised"])
+        ck.violation("C01/%s/simulate-raises/%s/%s" % (backend, type(e).__name__, class_of(case)),
+                     "simulate raised %s: %s on %s (n=%d, n_qubits=%s)" % (type(e).__name__, str(e)[:150], json.dumps(case["gates"])[:300], case["n"], case["n_arg"]), replay)
+        return
+    bad = property_issues(case, order, f, sv, ref)
+    ck.case(stream, json.dumps(case, sort_keys=True), nontrivial=True, sample={"n": case["n"], "n_qubits": case["n_arg"], "gates": case["gates"][:4], "frequencies": dict(list(f.items())[:3])}, tags=tags)
+    if not bad:
+        return
+    sigs = explain_sympy(case, order, f, sv) if backend == "sympy" else None
+    if sigs:
+        for sg in sorted(sigs):
+            ck.violation(sg, "%s; circuit %s" % ("; ".join(bad[:2]), json.dumps(case["gates"])[:300]), replay)
+        return
+
+    def fails(c):
+        p0, r = ref_states(c)
+        ff, ss = run_impl(c, order)
+        return bool(property_issues(c, order, ff, ss, r)) and not (c["backend"] == "sympy" and explain_sympy(c, order, ff, ss))
+    small = shrink_case(case, fails, budget=budget if backend == "cirq" else 8)
+    ck.violation("C01/%s/simulate/%s/%s" % (backend, clause_of(bad), class_of(small)),
+                 "%s; minimal circuit %s (n=%d, n_qubits=%s)" % ("; ".join(bad[:3]), json.dumps(small["gates"])[:400], small["n"], small["n_arg"]),
+                 {"kind": "exact", "case": small, "order": order})
+
+
+def dense_prefix(qs):
+    """H on every listed qubit, a different complex phase / rotation on each, two entangling rotations: all amplitudes distinct and complex."""
+    ks = [1, 3, 5, 7, 11, 13, -3, 9, 2, 6, 10]
+    pre = [{"name": "H", "target": [q], "control": None, "k": None} for q in qs]
+    pre += [{"name": ["RZ", "PHASE", "RX", "RY"][i % 4], "target": [q], "control": None, "k": ks[i % len(ks)]} for i, q in enumerate(qs)]
+    if len(qs) >= 2:
+        pre += [{"name": "CRY", "target": [qs[-1]], "control": [qs[0]], "k": 2}, {"name": "CRX", "target": [qs[0]], "control": [qs[-1]], "k": 6}]
+    return pre
+
+
+def placements_stream(ck, orders):
+    """Every position of 2-3 controls relative to the target (above, below, non-adjacent), two-target gates with their targets in both
+    orders, angles at and beyond 2*pi / 4*pi and negative, from a dense complex initial state (implementation vs np_sim)."""
+    ck.stream("placements", "cirq: CX CNOT CZ CY CH CRX CRY CRZ CPHASE with 2 and 3 controls and CSWAP with 1 and 2, SWAP, XX: every ordered placement in 4 qubits, "
+              "angles from {3, -5, 16 (2pi), 32 (4pi), 40, -48} pi/8, dense complex initial state, declared width 4 and width from the gates; sympy: the "
+              "controlled gates with 2 controls in all 6 placements of 3 qubits (explained by the recorded multi-control finding or reported); np_sim oracle")
+    n = 4
+    angles = [3, -5, 16, 32, 40, -48]
+    names = LC.CTRL_1 + LC.CTRL_ROT + LC.CTRL_2T + LC.TWO_T + LC.TWO_T_ROT
+    cnt = 0
+    for name in names:
+        nt = 2 if name in ("SWAP", "XX", "CSWAP") else 1
+        for nc in ([0] if not name.startswith("C") else ([1, 2] if name == "CSWAP" else [2, 3])):
+            for qs in itertools.permutations(range(n), nt + nc):
+                if nc and list(qs[nt:]) != sorted(qs[nt:]):
+                    continue                                   # control order is immaterial; every control SET in every position
+                k = angles[cnt % len(angles)] if name in LC.PARAM else None
+                cnt += 1
+                g = {"name": name, "target": list(qs[:nt]), "control": list(qs[nt:]) if nc else None, "k": k}
+                declared = cnt % 3 != 0
+                width = n if declared else max(qs) + 1
+                pre = dense_prefix(list(range(width)))
+                case = {"backend": "cirq", "n": width, "n_arg": width if declared else None, "prefix": pre, "gates": [g], "isv": True}
+                rel = "ctrl-above+below" if nc and min(qs[nt:]) < qs[0] < max(qs[nt:]) else ("ctrl-below" if nc and max(qs[nt:]) < qs[0] else ("ctrl-above" if nc else "no-ctrl"))
+                _judge(ck, "placements", case, orders["cirq"], ["cirq", name, "controls=%d" % nc, rel] + (["angle=%d" % k] if k is not None else []))
+    for name in ["CX", "CNOT", "CZ", "CRY", "CPHASE", "CH"]:
+        for qs in itertools.permutations(range(3), 3):
+            if qs[1] > qs[2]:
+                continue
+            g = {"name": name, "target": [qs[0]], "control": [qs[1], qs[2]], "k": 5 if name in LC.PARAM else None}
+            # H on the controls, so that the all-controls-set and the one-control-set components are both populated
+            gates = [{"name": "H", "target": [qs[1]], "control": None, "k": None}, {"name": "H", "target": [qs[2]], "control": None, "k": None}, g]
+            case = {"backend": "sympy", "n": 3, "n_arg": 3, "prefix": [], "gates": gates, "isv": False}
+            _judge(ck, "placements", case, orders["sympy"], ["sympy", name, "controls=2"])
+
+
+def gaps_stream(ck, orders):
+    """Narrow circuits on high qubit indices: 2-4 qubits used among indices up to 10 (always one >= 8), width taken from the gates or
+    declared even larger; the top qubit and the gaps stay idle."""
+    rng = ck.rng
+    ck.stream("index-gaps", "2-4 used qubits among indices 0..10 with at least one index >= 8, 1-6 gates of all kinds (0-3 controls), n_qubits unset (width = top index + 1) "
+              "or declared up to 11 (top qubits idle), cirq with a dense complex initial state on the used qubits, sympy from |0..0>; np_sim oracle")
+    nc_, ns_ = (40, 6) if ck.tier == "quick" else (500, 40)
+    for i in range(nc_ + ns_):
+        backend = "cirq" if i < nc_ else "sympy"
+        k = rng.choice([2, 3, 3, 4]) if backend == "cirq" else rng.choice([2, 3])
+        top = rng.choice([8, 9, 10]) if backend == "cirq" else rng.choice([8, 9])
+        phys = rng.sample(range(top), k - 1) + [top]
+        rng.shuffle(phys)
+        mapping = {j: q for j, q in enumerate(phys)}
+        names = LC.ALL_UNITARY if backend == "cirq" else SYMPY_GATES
+        gates = embed(LC.rand_gate_list(rng, k, rng.randint(1, 6 if backend == "cirq" else 3), names, max_controls=3, var_p=0.0, edge_p=0.3, echo_p=0.1), mapping)
+        if not any(top in s["target"] + (s["control"] or []) for s in gates):
+            gates.append({"name": rng.choice(["H", "RY", "X"]), "target": [top], "control": None, "k": None})
+            if gates[-1]["name"] == "RY":
+                gates[-1]["k"] = rng.choice([3, -5, 16, 40])
+        declared = rng.random() < 0.5
+        if declared:
+            n = rng.randint(top + 1, 11)
+        else:
+            n = max(q for s in gates for q in s["target"] + (s["control"] or [])) + 1
+        used = sorted({q for s in gates for q in s["target"] + (s["control"] or [])})
+        isv = backend == "cirq" and rng.random() < 0.7
+        case = {"backend": backend, "n": n, "n_arg": n if declared else None, "prefix": dense_prefix(used) if isv else [], "gates": gates, "isv": isv}
+        _judge(ck, "index-gaps", case, orders[backend], [backend, "n=%d" % n, "declared-width" if declared else "width-from-gates", "isv" if isv else "zero-state"]
+               + (["top-qubit-idle"] if n - 1 not in used else []) + (["multi-control"] if has_multi(case) else []))
+
 
 
 def float_stream(ck, orders):
@@ -724,17 +847,23 @@ def run(ck):
                       "theorems about control handling quantify over gates WITH controls (cs <> []): a 'C...' name without controls is outside the model "
                       "(see the malformed stream)",
                       "sampling statistics are outside: only exact invariants of sampled runs"]
+    tables = None
     try:
         tables = backend_tables.extract(REPO)
-        ck.write_gen("GateTables", gate_tables.emit(gate_tables.extract(REPO)))
-        ck.write_gen("BackendTables", backend_tables.emit(tables))
+        ck.notes["tables_source"] = "regenerated from /repo"
     except TranslateError as e:
         ck.violation("C01/translator", "translator no longer recognises the source: %s" % e, {"kind": "translator", "error": str(e)}, found_input=False)
-        return
+        tables = backend_tables.FALLBACK
+        ck.notes["tables_source"] = "FALLBACK constants of translator/backend_tables.py (extraction FAILED: %s) - theorems below are about the fallback tables, not about /repo" % str(e)[:200]
+    try:
+        ck.write_gen("GateTables", gate_tables.emit(gate_tables.extract(REPO)))
+        ck.write_gen("BackendTables", backend_tables.emit(tables))
+    except Exception as e:          # noqa
+        ck.violation("C01/translator/emit", "generated tables could not be written: %s" % e, {"kind": "translator", "error": str(e)}, found_input=False)
     orders = {"cirq": tables["cirq_order"], "sympy": tables["sympy_order"]}
     sympy_first_only = any(b[1] == "CFirst" for b in tables["sympy"]["branches"])
     ASIS["sympy_control0_only"] = sympy_first_only
-    ck.notes["regenerated"] = {"cirq_advertised_order": orders["cirq"], "sympy_advertised_order": orders["sympy"],
+    ck.notes["tables"] = {"cirq_advertised_order": orders["cirq"], "sympy_advertised_order": orders["sympy"],
                                "sympy_branches_reading_control0_only": [b[0] for b in tables["sympy"]["branches"] if b[1] == "CFirst"],
                                "cirq_branches_reading_control0_only": [b[0] for b in tables["cirq"]["branches"] if b[1] == "CFirst"],
                                "cirq_renames": tables["cirq"]["renames"], "cirq_pow_uses": tables["cirq"]["pow_uses"],
@@ -748,9 +877,12 @@ def run(ck):
     ck.notes["outside_theorems"] = ["cirq's and sympy's simulators (correspondence only)", "distribution of sampled outcomes (exact invariants only)",
                                     "floating-point rounding", "sympy backend: XX and CSWAP are refused with ValueError (no theorem, no alarm)",
                                     "noise section of translate_c_to_cirq (property C19), MEASURE/CMEASURE (property C10)"]
-    res = ck.prove(timeout=900)
-    if not res.ok:
-        ck.proof_violation(res)
+    try:
+        res = ck.prove(timeout=900)
+        if not res.ok:
+            ck.proof_violation(res)
+    except Exception as e:          # noqa  (e.g. a theory file that no longer builds): reported, the oracles below still run
+        ck.violation("C01/proof/build", "the proof step could not run: %s" % str(e)[-400:], {"kind": "proof", "error": str(e)[-3000:]}, found_input=False)
     try:
         import warnings
         warnings.filterwarnings("ignore")
@@ -758,43 +890,70 @@ def run(ck):
     except Exception as e:  # noqa
         ck.violation("C01/import", "tangelo.linq cannot be imported: %r" % e, {"kind": "import"}, found_input=False)
         return
-    wit = witnesses(ck, orders)
-    ck.notes["witness_replay"] = {"order_witness_violates": wit["order"], "controls_witness_violates": wit["controls"]}
-    # a `_status` theorem on its refuted side whose witness passes on the real code: the model is wrong
-    if orders["sympy"] == "lsq_first" and not wit["order"]:
-        ck.violation("C01/model/sympy-order", "the model says the sympy vector is little-endian but the witness passes on the real code",
-                     {"kind": "exact", "case": WITNESS_ORDER, "order": orders["sympy"]}, found_input=False)
-    if sympy_first_only and not wit["controls"]:
-        ck.violation("C01/model/sympy-controls", "the regenerated table says control[0] only but the witness passes on the real code",
-                     {"kind": "exact", "case": WITNESS_CTRL, "order": orders["sympy"]}, found_input=False)
-    function_level(ck, orders)
-    # ---- exact circuit streams
-    rng = ck.rng
-    n_cirq, n_sympy = (300, 40) if ck.tier == "quick" else (3000, 300)
-    cases = []
-    corpus = VERIF / "corpus" / "C01"
-    if corpus.exists():
-        for fpath in sorted(corpus.glob("*.json")):
-            cases.append(json.loads(fpath.read_text())["case"])
-    cases += [gen_case(rng, "cirq", ck.tier) for _ in range(n_cirq)] + [gen_case(rng, "sympy", ck.tier) for _ in range(n_sympy)]
-    ck.stream("cirq-exact", "random circuits on get_backend('cirq') (1-5 qubits quick / 1-6 thorough, 1-10/14 gates, all 22 gate kinds, 0-3 controls, gaps, "
-              "declared width, prefix-circuit initial states) against the exact Q(zeta_32) evaluation; non-trivial = (>= 2 gate kinds and >= 2 non-zero "
-              "amplitudes) or a multi-controlled / non-adjacent gate")
-    ck.stream("sympy-exact", "random circuits on get_backend('sympy') (1-3 qubits, 1-6 gates + <= 2 prefix gates, the 20 kinds the sympy translator lists, "
-              "0-3 controls); same comparisons; failures explained by exactly the recorded defects carry their signatures")
-    exprs = []
-    for c in cases:
-        fn = "cirq_case" if c["backend"] == "cirq" else "sympy_case"
-        exprs.append("%s %s %s %s" % (fn, coq_str(orders[c["backend"]]), coq_nat(c["n"]), coq_gates(c)))
-    out = ck.coq_eval("exact", PREAMBLE, exprs, shard=max(30, len(exprs) // 8 + 1), jobs=4)
-    for c, m in zip(cases, out):
-        check_exact(ck, c, orders[c["backend"]], m, "cirq-exact" if c["backend"] == "cirq" else "sympy-exact")
-    sampled_stream(ck, orders)
-    malformed_stream(ck, tables, orders)
-    float_stream(ck, orders)
-    if ck.tier == "thorough":
-        sweep(ck, orders)
 
+    def guarded(name, fn, *args):
+        """One stream; a crash of the harness (or of tangelo outside a per-case handler) is reported and does not hide the other streams."""
+        import traceback
+        try:
+            return fn(*args)
+        except Exception:               # noqa
+            tb = traceback.format_exc()
+            ck.violation("C01/stream-crash/%s" % name, "stream %s could not complete: %s" % (name, tb.splitlines()[-1][:300]),
+                         {"kind": "crash", "stream": name, "traceback": tb[-3000:]}, found_input=False)
+            return None
+
+    def do_witnesses():
+        wit = witnesses(ck, orders)
+        ck.notes["witness_replay"] = {"order_witness_violates": wit["order"], "controls_witness_violates": wit["controls"]}
+        # a `_status` theorem on its refuted side whose witness passes on the real code: the model is wrong
+        if orders["sympy"] == "lsq_first" and not wit["order"]:
+            ck.violation("C01/model/sympy-order", "the model says the sympy vector is little-endian but the witness passes on the real code",
+                         {"kind": "exact", "case": WITNESS_ORDER, "order": orders["sympy"]}, found_input=False)
+        if sympy_first_only and not wit["controls"]:
+            ck.violation("C01/model/sympy-controls", "the regenerated table says control[0] only but the witness passes on the real code",
+                         {"kind": "exact", "case": WITNESS_CTRL, "order": orders["sympy"]}, found_input=False)
+
+    def do_exact():
+        rng = ck.rng
+        n_cirq, n_sympy = (300, 40) if ck.tier == "quick" else (3000, 300)
+        cases = []
+        corpus = VERIF / "corpus" / "C01"
+        if corpus.exists():
+            for fpath in sorted(corpus.glob("*.json")):
+                cases.append(json.loads(fpath.read_text())["case"])
+        cases += [gen_case(rng, "cirq", ck.tier) for _ in range(n_cirq)] + [gen_case(rng, "sympy", ck.tier) for _ in range(n_sympy)]
+        ck.stream("cirq-exact", "random circuits on get_backend('cirq') (1-5 qubits quick / 1-6 thorough, 1-10/14 gates, all 22 gate kinds, 0-3 controls, gaps, "
+                  "declared width (top qubit idle in half of the wider ones) or width from the gates, dense complex prefix-circuit initial states) against the exact "
+                  "Q(zeta_32) evaluation and np_sim; non-trivial = (>= 2 gate kinds and >= 2 non-zero amplitudes) or a multi-controlled / non-adjacent gate")
+        ck.stream("sympy-exact", "random circuits on get_backend('sympy') (1-3 qubits, 1-6 gates + prefix, the 20 kinds the sympy translator lists, "
+                  "0-3 controls); same comparisons; failures explained by exactly the recorded defects carry their signatures")
+        exprs = []
+        for c in cases:
+            fn = "cirq_case" if c["backend"] == "cirq" else "sympy_case"
+            exprs.append("%s %s %s %s" % (fn, coq_str(orders[c["backend"]]), coq_nat(c["n"]), coq_gates(c)))
+        try:
+            out = ck.coq_eval("exact", PREAMBLE, exprs, shard=max(30, len(exprs) // 8 + 1), jobs=4)
+        except Exception as e:          # noqa
+            ck.violation("C01/coq-eval/exact", "the exact Coq evaluation is unavailable (%s); the implementation is judged against np_sim only" % str(e)[-300:],
+                         {"kind": "coq_eval", "error": str(e)[-3000:]}, found_input=False)
+            out = [None] * len(cases)
+        for c, m in zip(cases, out):
+            try:
+                check_exact(ck, c, orders[c["backend"]], m, "cirq-exact" if c["backend"] == "cirq" else "sympy-exact")
+            except Exception as e:      # noqa  a crash while judging ONE case must not hide the others
+                ck.violation("C01/stream-crash/exact-case", "judging a case crashed: %r on %s" % (e, json.dumps(c["gates"])[:300]),
+                             {"kind": "exact", "case": c, "order": orders[c["backend"]]}, found_input=False)
+
+    guarded("witnesses", do_witnesses)
+    guarded("functions", function_level, ck, orders)
+    guarded("exact", do_exact)
+    guarded("placements", placements_stream, ck, orders)
+    guarded("index-gaps", gaps_stream, ck, orders)
+    guarded("sampled", sampled_stream, ck, orders)
+    guarded("malformed", malformed_stream, ck, tables, orders)
+    guarded("float-angles", float_stream, ck, orders)
+    if ck.tier == "thorough":
+        guarded("sweep", sweep, ck, orders)
 
 # ------------------------------------------------------------------------------------------ replay
 def replay(data):
